@@ -361,10 +361,12 @@ impl<'tcx> Cx<'tcx> {
                             Some(f) => vec![esc(&v.fields[*f].name.to_string())],
                             None => v.fields.iter().map(|f| esc(&f.name.to_string())).collect(),
                         };
+                        let vd = if def.is_enum() { def.discriminant_for_variant(self.tcx, *vi).val } else { 0 };
                         format!(
-                            "\"ak\":\"adt\",\"adt\":{},\"variant\":{},\"fields\":[{}]",
+                            "\"ak\":\"adt\",\"adt\":{},\"variant\":{},\"vd\":{},\"fields\":[{}]",
                             esc(&self.path(*did)),
                             esc(&v.name.to_string()),
+                            vd,
                             join(&fields)
                         )
                     }
